@@ -1180,3 +1180,241 @@ package validate
 //@   requires r != nil
 //@   modifies heap("D$map[string]interface{}"), r.cachedFieldSchemata
 //@   ensures[C19] noNewMembers("map[string]interface{}")
+
+// ---------------------------------------------------------------------------
+// spec.go, default_validator.go, example_validator.go, helpers.go (C07: spec validation never panics)
+//
+// specReady: what (*SpecValidator).Validate establishes before it calls any of the rule checkers, and what every
+// rule checker relies on when it dereferences the validator's document, analyzer and options.
+//@ pred specReady(s *SpecValidator) = s != nil && s.spec != nil && s.analyzer != nil && s.schemaOptions != nil
+
+//@ pred defReady(d *defaultValidator) = d != nil && specReady(d.SpecValidator) && d.visitedSchemas != nil && d.schemaOptions != nil
+//@ pred exReady(ex *exampleValidator) = ex != nil && specReady(ex.SpecValidator) && ex.visitedSchemas != nil && ex.schemaOptions != nil
+
+// entry points
+//@ func Spec
+//@   requires[C07] doc != nil
+//@   modifies *
+//@ func NewSpecValidator
+//@   modifies *
+//@   ensures[C07] result != nil && result.schemaOptions != nil && fresh(result)
+//@ func (*SpecValidator).Validate
+//@   maypanic
+//@   requires[C07] s != nil && s.schemaOptions != nil
+//@   modifies *
+//@   ensures[C07] result0 != nil && result1 != nil
+
+// rule checkers: rely on specReady, leave the validators' own fields alone, return a result that can be merged
+//@ func (*SpecValidator).validateNonEmptyPathParamNames
+//@   requires[C07] specReady(s)
+//@   modifies *
+//@   preserves SpecValidator, defaultValidator, exampleValidator
+//@   ensures[C07] result != nil
+//@ func (*SpecValidator).validateDuplicateOperationIDs
+//@   requires[C07] specReady(s)
+//@   modifies *
+//@   preserves SpecValidator, defaultValidator, exampleValidator
+//@   ensures[C07] result != nil
+//@ func (*SpecValidator).validateDuplicatePropertyNames
+//@   requires[C07] specReady(s)
+//@   modifies *
+//@   preserves SpecValidator, defaultValidator, exampleValidator
+//@   ensures[C07] result != nil
+//@ func (*SpecValidator).validateItems
+//@   requires[C07] specReady(s)
+//@   modifies *
+//@   preserves SpecValidator, defaultValidator, exampleValidator
+//@   ensures[C07] result != nil
+//@ func (*SpecValidator).validateSchemaItems
+//@   requires[C07] specReady(s)
+//@   modifies *
+//@   preserves SpecValidator, defaultValidator, exampleValidator
+//@   ensures[C07] result != nil
+//@ func (*SpecValidator).validatePathParamPresence
+//@   requires[C07] specReady(s)
+//@   modifies *
+//@   preserves SpecValidator, defaultValidator, exampleValidator
+//@   ensures[C07] result != nil
+//@ func (*SpecValidator).validateReferenced
+//@   requires[C07] specReady(s)
+//@   modifies *
+//@   preserves SpecValidator, defaultValidator, exampleValidator
+//@   ensures[C07] result != nil
+//@ func (*SpecValidator).validateReferencedParameters
+//@   requires[C07] specReady(s)
+//@   modifies *
+//@   preserves SpecValidator, defaultValidator, exampleValidator
+//@ func (*SpecValidator).validateReferencedResponses
+//@   requires[C07] specReady(s)
+//@   modifies *
+//@   preserves SpecValidator, defaultValidator, exampleValidator
+//@ func (*SpecValidator).validateReferencedDefinitions
+//@   requires[C07] specReady(s)
+//@   modifies *
+//@   preserves SpecValidator, defaultValidator, exampleValidator
+//@ func (*SpecValidator).validateRequiredDefinitions
+//@   requires[C07] specReady(s)
+//@   modifies *
+//@   preserves SpecValidator, defaultValidator, exampleValidator
+//@   ensures[C07] result != nil
+//@ func (*SpecValidator).validateRequiredProperties
+//@   requires[C07] specReady(s)
+//@   modifies *
+//@   preserves SpecValidator, defaultValidator, exampleValidator
+//@   ensures[C07] result != nil
+//@ func (*SpecValidator).validateParameters
+//@   maypanic
+//@   requires[C07] specReady(s)
+//@   modifies *
+//@   preserves SpecValidator, defaultValidator, exampleValidator
+//@   ensures[C07] result != nil
+//@ func (*SpecValidator).checkUniqueParams
+//@   requires[C07] specReady(s)
+//@   modifies *
+//@   preserves SpecValidator, defaultValidator, exampleValidator
+//@   ensures[C07] result != nil
+// validateReferencesValid sets s.expanded
+//@ func (*SpecValidator).validateReferencesValid
+//@   requires[C07] specReady(s)
+//@   modifies *
+//@   preserves defaultValidator, exampleValidator
+//@   ensures[C07] result != nil && unchanged(s.spec) && unchanged(s.analyzer) && unchanged(s.schemaOptions)
+//@   loop * invariant[C07] unchanged(s.spec) && unchanged(s.analyzer) && unchanged(s.schemaOptions)
+//@ func (*SpecValidator).validateSchemaPropertyNames
+//@   requires[C07] specReady(s) && knowns != nil
+//@   modifies *
+//@   preserves SpecValidator, defaultValidator, exampleValidator
+//@   ensures[C07] result1 != nil
+//@ func (*SpecValidator).validateCircularAncestry
+//@   requires[C07] specReady(s) && knowns != nil
+//@   modifies *
+//@   preserves SpecValidator, defaultValidator, exampleValidator
+//@   ensures[C07] result1 != nil
+//@ func (*SpecValidator).resolveRef
+//@   requires[C07] specReady(s) && ref != nil
+//@   modifies *
+//@   preserves SpecValidator, defaultValidator, exampleValidator
+// defaultValidator: resetVisited allocates the visited set when there is none, otherwise empties it in place
+//@ func (*defaultValidator).resetVisited
+//@   requires[C07] d != nil
+//@   modifies d.visitedSchemas, mapof(d.visitedSchemas)
+//@   ensures[C07] d.visitedSchemas != nil && len(d.visitedSchemas) == 0 && implies(old(d.visitedSchemas) != nil, unchanged(d.visitedSchemas))
+//@   loop 1 invariant[C07] forallkey(q, d.visitedSchemas, !visited(1, q)) && unchanged(d.visitedSchemas)
+//@ func (*defaultValidator).Validate
+//@   requires[C07] d == nil || d.SpecValidator == nil || (specReady(d.SpecValidator) && d.schemaOptions != nil)
+//@   modifies *
+//@   preserves SpecValidator
+//@   ensures[C07] result != nil
+//@ func (*defaultValidator).validateDefaultValueValidAgainstSchema
+//@   requires[C07] defReady(d)
+//@   modifies *
+//@   preserves SpecValidator
+//@   ensures[C07] result != nil && unchanged(d.SpecValidator) && unchanged(d.visitedSchemas) && unchanged(d.schemaOptions)
+//@   loop * invariant[C07] unchanged(d.SpecValidator) && unchanged(d.visitedSchemas) && unchanged(d.schemaOptions)
+//@ func (*defaultValidator).validateDefaultInResponse
+//@   requires[C07] defReady(d) && resp != nil
+//@   modifies *
+//@   preserves SpecValidator
+//@   ensures[C07] result != nil && unchanged(d.SpecValidator) && unchanged(d.visitedSchemas) && unchanged(d.schemaOptions)
+//@   loop * invariant[C07] unchanged(d.SpecValidator) && unchanged(d.visitedSchemas) && unchanged(d.schemaOptions)
+//@ func (*defaultValidator).validateDefaultValueSchemaAgainstSchema
+//@   requires[C07] defReady(d)
+//@   modifies *
+//@   preserves SpecValidator, defaultValidator, exampleValidator
+//@   ensures[C07] (result == nil) == (schema == nil || old(has(d.visitedSchemas, path)) || overlapsParent(path))
+//@ func (*defaultValidator).validateDefaultValueItemsAgainstSchema
+//@   requires[C07] defReady(d)
+//@   modifies *
+//@   preserves SpecValidator, defaultValidator, exampleValidator
+//@   ensures[C07] result != nil
+//@ func (*defaultValidator).beingVisited
+//@   requires[C07] d != nil && d.visitedSchemas != nil
+//@   modifies *
+//@   preserves SpecValidator, defaultValidator, exampleValidator
+// exampleValidator: resetVisited allocates the visited set when there is none, otherwise empties it in place
+//@ func (*exampleValidator).resetVisited
+//@   requires[C07] ex != nil
+//@   modifies ex.visitedSchemas, mapof(ex.visitedSchemas)
+//@   ensures[C07] ex.visitedSchemas != nil && len(ex.visitedSchemas) == 0 && implies(old(ex.visitedSchemas) != nil, unchanged(ex.visitedSchemas))
+//@   loop 1 invariant[C07] forallkey(q, ex.visitedSchemas, !visited(1, q)) && unchanged(ex.visitedSchemas)
+//@ func (*exampleValidator).Validate
+//@   requires[C07] ex == nil || ex.SpecValidator == nil || (specReady(ex.SpecValidator) && ex.schemaOptions != nil)
+//@   modifies *
+//@   preserves SpecValidator
+//@   ensures[C07] result != nil
+//@ func (*exampleValidator).validateExampleValueValidAgainstSchema
+//@   requires[C07] exReady(ex)
+//@   modifies *
+//@   preserves SpecValidator
+//@   ensures[C07] result != nil && unchanged(ex.SpecValidator) && unchanged(ex.visitedSchemas) && unchanged(ex.schemaOptions)
+//@   loop * invariant[C07] unchanged(ex.SpecValidator) && unchanged(ex.visitedSchemas) && unchanged(ex.schemaOptions)
+//@ func (*exampleValidator).validateExampleInResponse
+//@   requires[C07] exReady(ex) && resp != nil
+//@   modifies *
+//@   preserves SpecValidator
+//@   ensures[C07] result != nil && unchanged(ex.SpecValidator) && unchanged(ex.visitedSchemas) && unchanged(ex.schemaOptions)
+//@   loop * invariant[C07] unchanged(ex.SpecValidator) && unchanged(ex.visitedSchemas) && unchanged(ex.schemaOptions)
+//@ func (*exampleValidator).validateExampleValueSchemaAgainstSchema
+//@   requires[C07] exReady(ex)
+//@   modifies *
+//@   preserves SpecValidator, defaultValidator, exampleValidator
+//@   ensures[C07] (result == nil) == (schema == nil || old(has(ex.visitedSchemas, path)) || overlapsParent(path))
+//@ func (*exampleValidator).validateExampleValueItemsAgainstSchema
+//@   requires[C07] exReady(ex)
+//@   modifies *
+//@   preserves SpecValidator, defaultValidator, exampleValidator
+//@   ensures[C07] result != nil
+//@ func (*exampleValidator).beingVisited
+//@   requires[C07] ex != nil && ex.visitedSchemas != nil
+//@   modifies *
+//@   preserves SpecValidator, defaultValidator, exampleValidator
+// helpers.go
+//@ func (*paramHelper).safeExpandedParamsFor
+//@   requires[C07] specReady(s) && res != nil
+//@   modifies *
+//@   preserves SpecValidator, defaultValidator, exampleValidator
+//@ func (*paramHelper).resolveParam
+//@   requires[C07] specReady(s) && param != nil
+//@   modifies *
+//@   preserves SpecValidator, defaultValidator, exampleValidator
+//@   ensures[C07] result1 != nil
+//@ func (*paramHelper).checkExpandedParam
+//@   requires[C07] pr != nil
+//@   modifies *
+//@   preserves SpecValidator, defaultValidator, exampleValidator
+//@   ensures[C07] result != nil
+//@ func (*responseHelper).expandResponseRef
+//@   requires[C07] specReady(s) && response != nil
+//@   modifies *
+//@   preserves SpecValidator, defaultValidator, exampleValidator
+//@   ensures[C07] result1 != nil && (result0 != nil || len(result1.Errors) > 0)
+//@ func (*errorHelper).addPointerError
+//@   inline
+// path helpers and the visited-set queries write nothing that belongs to the validators
+//@ func (*pathHelper).stripParametersInPath
+//@   modifies *
+//@   preserves SpecValidator, defaultValidator, exampleValidator
+//@ func (*pathHelper).extractPathParams
+//@   modifies *
+//@   preserves SpecValidator, defaultValidator, exampleValidator
+// isVisited: membership in the visited set, or the path-overlap heuristic (a loop over the bytes of the path with
+// strings.HasSuffix: strings are uninterpreted here, so the heuristic is the uninterpreted overlapsParent and the
+// contract is trusted, not proved; it is exercised by the replay tests of the C07 seeds).
+//@ ufunc overlapsParent(path string) bool
+//@ func isVisited
+//@   trusted
+//@   pure
+//@   ensures result == (has(visitedSchemas, path) || overlapsParent(path))
+// responseMsgVariants returns "default" or strconv.Itoa(code) as its second result: no '.', so no overlap (trusted)
+//@ func (*responseHelper).responseMsgVariants
+//@   trusted
+//@   pure
+//@   ensures !overlapsParent(result1)
+//@ func (*defaultValidator).isVisited
+//@   requires[C07] d != nil
+//@   pure
+//@   ensures[C07] result == (has(d.visitedSchemas, path) || overlapsParent(path))
+//@ func (*exampleValidator).isVisited
+//@   requires[C07] ex != nil
+//@   pure
+//@   ensures[C07] result == (has(ex.visitedSchemas, path) || overlapsParent(path))
